@@ -108,6 +108,12 @@ def cases(tier, rng, ifaces):
         for h in (b'MANY ', b'NINE ', b'X ', b'ECHO:U8? '):
             out.append(run_case('echo', 'std', h + args + b'\n', 'RUN-argcount'))
             out.append(proc_case('echo', 64, h + args + b'\n', [5] * 10, 'PROC-argcount'))
+    # response values of every shape, written directly (a handler may return any of them): empty lists, nested tuples, small writers
+    shapes = ['hv[]', 'sl[]', 't(hv[];sl[])', 't(u8:1;hv[])', 'hv[u8:1]', 'sl[str:-]', 'sl[arb:-;arb:-]', 't(unit;unit)', 'hv[unit]', 'str:-', 'chars:-', 'arb:-',
+              'hv[t(u8:1;sl[]);t(u8:2;sl[u8:3])]', 'sl[hv[];hv[]]', 'errc:0:-', 't(f32:0x7fc00000;f64:0xfff0000000000000;hv[])']
+    for e in shapes:
+        for wr in ['std', 'pt'] + [f'hl{c}' for c in (0, 1, 2, 3, 8, 256)]:
+            out.append(Case(f'RESP {wr} {e}', no_crash, {'kind': 'RESP-shape'}))
     # very long mnemonics and character data (headers, parameters), every length around powers of two
     for ln in (11, 12, 13, 15, 16, 17, 31, 32, 33, 63, 64, 65, 127, 128, 129, 255, 256, 257, 1000):
         name = (b'ABCDEFGHIJKLMNOPQRSTUVWXYZ' * 40)[:ln]
